@@ -18,6 +18,7 @@ import GscribModel.Drv.WritersSrc
 import GscribModel.Drv.TracerSrc
 import GscribModel.Drv.FormatSrc
 import GscribModel.Drv.XformSrc
+import GscribModel.Drv.HeightSrc
 /-! Line-protocol driver: `driver <mode>` (or `lake env lean --run Driver.lean <mode>`) reads one
     case/operation per line on stdin and prints exactly one record per line (`bad-op …` for an
     unparsable line).  Each mode lives in `GscribModel/Drv/<Mode>.lean`. -/
@@ -45,4 +46,5 @@ def main (args : List String) : IO UInt32 := do
   | ["tracersrc"] => TracerSrcDrv.main; return 0
   | ["formatsrc"] => FormatSrcDrv.main; return 0
   | ["xform"] => XformSrcDrv.main; return 0
+  | ["heightsrc"] => HeightSrcDrv.main; return 0
   | _ => IO.eprintln s!"unknown mode {args}"; return 2
